@@ -13,9 +13,10 @@ ID = "C09"
 LEAN_MODULES = ["Barril.Props.C09"]
 DRIVERS = ["drv_ops"]
 DRIVER_EXE = "drv_ops"
-RULE = ("x in {Scalar, Array over list / tuple / ndarray, lengths 0..5} with a simple, derived (normal, twin, mixed-unit, "
+RULE = ("x in {Scalar, Array over list / tuple / ndarray, lengths 0..5} with a simple, derived (normal, twin, mixed-unit, offset units, "
         "zero-exponent) or empty quantity of the default POSC database; k in {int, float, bool, numpy.float64/float32/"
-        "int64/int32} and 1-D ndarrays (float64/float32/int64; same length, length 1, other length, empty); all ten forms "
+        "int64/int32} and 1-D ndarrays (float64/float32/int64; plain, numpy.ma masked arrays with nothing / some elements masked, "
+        "ndarray subclass views with __array_priority__ 1 / 50; same length, length 1, other length, empty); all ten forms "
         "k*x x*k x/k x//k x+k k+x x-k k-x k/x k//x; zero divisors in float slots; a malformed stream (str, None, list, "
         "Scalar with ndarray, Scalar with Array).  distinct = distinct (form, operands); non-trivial = the real code "
         "returned a barril object")
@@ -44,7 +45,7 @@ def _quantities(ctx, rng, n_simple, n_derived):
     qs = []
     for _ in range(n_simple):
         qs.append(oc.simple_q(ctx, rng))
-    shapes = ["normal", "normal", "twin", "mixed", "zero"]
+    shapes = ["normal", "affine", "twin", "mixed", "zero", "normal", "affine-mixed"]
     for i in range(n_derived):
         qs.append(oc.derived_q(ctx, rng, shapes[i % len(shapes)]))
     qs.append([])  # the empty quantity (Scalar.CreateEmptyScalar / Array.CreateEmptyArray)
@@ -92,7 +93,10 @@ def _gen(ctx, salt, n_simple, n_derived, n_junk):
                         n = 1
                     m = {"same": n, "one": 1, "other": n + 2, "empty": 0}[variant]
                     dt = rng.choice(["f64", "f64", "f64", "f32", "i64"])
-                    k = oc.nd_spec(dt, oc.rand_values(rng, m, nonzero=True, ints=(dt == "i64")))
+                    # a plain ndarray, a numpy.ma masked array (nothing / some elements masked) or a trivial
+                    # ndarray subclass view with __array_priority__ 1.0 / 50.0
+                    sub = rng.choice([None, None] + list(oc.ND_SUBS))
+                    k = oc.nd_spec(dt, oc.rand_values(rng, m, nonzero=True, ints=(dt == "i64")), sub=sub)
                     x = _x(rng, q, shape, n, False, nonzero=True)
                     yield _case(f, side, x, k)
     # malformed stream
@@ -168,7 +172,8 @@ def oracle(c, ctx):
     except Exception:
         return None
     xs = [x.value] if xspec["t"] == "scalar" else list(x.values)
-    ks = list(k) if kspec["t"] == "nd" else None
+    ks = [oc.val(v) for v in kspec["xs"]] if kspec["t"] == "nd" else None
+    kmask = list(kspec.get("mask") or []) if kspec["t"] == "nd" else []   # masked positions carry no value
     if ks is not None and len(ks) != len(xs):
         return None  # numpy's broadcasting rules decide; not part of the property
     form = "%s %s %s" % (oc.render(a), oc.OPSIGN[f], oc.render(b))
@@ -217,10 +222,14 @@ def oracle(c, ctx):
             # (items with exponent 0 and cancelling items are null factors: unit and dimension decide)
             return fail(clause="the result keeps x's quantity", form=form, got=rq, want=want,
                         got_unit=r.GetUnit(), want_unit=x.GetUnit())
-    got = [r.value] if isinstance(r, Scalar) else list(r.values)
+    rvals = r.value if isinstance(r, Scalar) else r.values
+    rmask = [bool(m) for m in np.ma.getmaskarray(rvals)] if isinstance(rvals, np.ma.MaskedArray) else []
+    got = [rvals] if isinstance(r, Scalar) else list(np.ma.getdata(rvals) if rmask else rvals)
     if len(got) != len(xs):
         return fail(clause="one result value per value of x", form=form, got=len(got), want=len(xs))
     for i, (n_, d_) in enumerate(pairs):
+        if (i < len(kmask) and kmask[i]) or (i < len(rmask) and rmask[i]):
+            continue
         with warnings.catch_warnings():
             warnings.simplefilter("ignore")
             with np.errstate(all="ignore"):
